@@ -293,21 +293,28 @@ RetentionEnd(pre, v) ==
   LET s == pre.apps[v].server r == pre.apps[v].retention IN
   IF r = NoNum THEN 0 ELSE pre.servers[s].since + r
 
+(* the same with the down-time taken from the observer's own record ds of     *)
+(* when each server actually went down (the stored `since` is the code's      *)
+(* bookkeeping, which is itself under test)                                   *)
+RetentionEndObs(pre, v, ds) ==
+  LET s == pre.apps[v].server r == pre.apps[v].retention
+      since == IF s \in DOMAIN ds THEN ds[s] ELSE pre.servers[s].since IN
+  IF r = NoNum THEN 0 ELSE since + r
+
 (* the cycle runs at post.clock (= pre.clock: a cycle does not advance time) *)
-C08keep(pre, post, queue) ==
+C08keep(pre, post, queue, ds) ==
   \A v \in AppNames(pre) :
     (Entitled(pre, post, queue, v) /\ ~pre.apps[v].renew
        /\ pre.servers[pre.apps[v].server].state = "down"
-       /\ pre.servers[pre.apps[v].server].since >= 0
-       /\ RetentionEnd(pre, v) > post.clock) =>
+       /\ RetentionEndObs(pre, v, ds) > post.clock) =>
       post.apps[v].server = pre.apps[v].server
 
-C08expire(pre, post) ==
+C08expire(pre, post, ds) ==
   \A v \in AppNames(pre) :
     (/\ v \in AppNames(post) /\ pre.apps[v].server # NoServer
      /\ pre.apps[v].server \in SrvNames(pre)
      /\ pre.servers[pre.apps[v].server].state = "down"
-     /\ RetentionEnd(pre, v) <= post.clock) =>
+     /\ RetentionEndObs(pre, v, ds) <= post.clock) =>
       post.apps[v].server # pre.apps[v].server
 
 C08frozenKeep(pre, post, queue) ==
